@@ -675,7 +675,13 @@ module.exports = { runJob, HAS_MODULES, LOG_CAP };
 // CLI: NDJSON in, NDJSON out (same order).
 // ---------------------------------------------------------------------------------------------
 if (require.main === module) {
-  process.on('uncaughtException', (e) => { try { process.stderr.write('membrane: uncaught ' + (e && e.stack || e) + '\n'); } catch (x) { /* ignore */ } });
+  // the parent going away (closed pipes) ends the worker: never spin on EPIPE
+  process.stdout.on('error', () => process.exit(0));
+  process.stderr.on('error', () => process.exit(0));
+  process.on('uncaughtException', (e) => {
+    if (e && (e.code === 'EPIPE' || e.code === 'ERR_STREAM_DESTROYED')) process.exit(0);
+    try { process.stderr.write('membrane: uncaught ' + (e && e.stack || e) + '\n'); } catch (x) { process.exit(0); }
+  });
   (async () => {
     const rl = require('readline').createInterface({ input: process.stdin, crlfDelay: Infinity, terminal: false });
     const write = (s) => new Promise((res) => { if (process.stdout.write(s)) res(); else process.stdout.once('drain', res); });
